@@ -48,6 +48,9 @@ type VC struct {
 	assumed   []string // assumptions about externals used while encoding (for evidence)
 	names     map[string]int
 	rootAssum []string
+	seeds     map[string]string
+	instances []*defInstance
+	instSeen  map[string]bool
 }
 
 func newVC(u *Universe, cs *Contracts, fn string) *VC {
@@ -179,4 +182,60 @@ func (vc *VC) prelude(extraDecls []string) string {
 		b.WriteString("\n")
 	}
 	return b.String()
+}
+
+type defInstance struct {
+	f     *SpecFn
+	args  []TV
+	depth int
+}
+
+// noteInstance records a ground application of a defined spec function.
+func (vc *VC) noteInstance(f *SpecFn, args []TV, depth int) {
+	var ts []string
+	for _, a := range args {
+		if strings.Contains(a.T, "$") { // mentions a bound variable: not ground
+			return
+		}
+		ts = append(ts, a.T)
+	}
+	key := f.Name + "(" + strings.Join(ts, " ") + ")"
+	if vc.instSeen == nil {
+		vc.instSeen = map[string]bool{}
+	}
+	if vc.instSeen[key] {
+		return
+	}
+	vc.instSeen[key] = true
+	vc.instances = append(vc.instances, &defInstance{f: f, args: args, depth: depth})
+}
+
+// unfoldInstances emits "f(args) = body[args]" for every recorded ground instance, up to each definition's depth.
+// The definitional equations are global facts (they constrain only the uninterpreted symbol f).
+func (vc *VC) unfoldInstances() []string {
+	var out []string
+	for i := 0; i < len(vc.instances); i++ {
+		in := vc.instances[i]
+		if in.depth >= in.f.Depth {
+			continue
+		}
+		vars := map[string]TV{}
+		var ts []string
+		for k, prm := range in.f.Params {
+			vars[prm.Name] = in.args[k]
+			ts = append(ts, in.args[k].T)
+		}
+		env := &SpecEnv{vc: vc, vars: vars, st: State{}, unfoldDepth: in.depth + 1}
+		body, err := env.tr(in.f.Body)
+		if err != nil {
+			vc.addErr("def %s: %v", in.f.Name, err)
+			continue
+		}
+		lhs := in.f.Name
+		if len(ts) > 0 {
+			lhs = "(" + in.f.Name + " " + strings.Join(ts, " ") + ")"
+		}
+		out = append(out, eq(lhs, body.T))
+	}
+	return out
 }
